@@ -150,6 +150,7 @@ type vLine struct {
 	Node     string `json:"node"`
 	Decision bool   `json:"decision"`
 	Info     string `json:"info"`
+	Age      int64  `json:"age"` // GossipPick / PushPullPick: ms since the picked member's record last changed state
 
 	// simulation lines (SimInit, Crash, Restart, StopFaults, End, Api ...)
 	Names []string `json:"names"`
@@ -193,13 +194,14 @@ func vBlankLine(ev string) *vLine {
 // Per-node registration
 
 type vNode struct {
-	m        *Memberlist
-	name     string
-	cfg      vCfg
-	allow    []netip.Prefix // independent copy of the allowlist (nil = off)
-	created  bool
-	vetoMeta string
-	labels   *vLabels
+	m          *Memberlist
+	name       string
+	cfg        vCfg
+	allow      []netip.Prefix // independent copy of the allowlist (nil = off)
+	created    bool
+	gossipSeen int
+	vetoMeta   string
+	labels     *vLabels
 	// open brackets per goroutine (innermost last)
 	open map[int64][]*vOpen
 	// merge context per goroutine: remote state of the entry being merged, and its line
@@ -716,6 +718,29 @@ func (s *vSink) hook(m *Memberlist, ev string, kv ...any) {
 		l.Node = st.Name
 		l.Info = vStateName(st.State)
 		s.emit(l)
+
+	case "gossip.pick", "pushpull.pick":
+		// (the node lock is read-held by the hooked goroutine: the records cannot change under us)
+		kind := map[string]string{"gossip.pick": "GossipPick", "pushpull.pick": "PushPullPick"}[ev]
+		for _, nd := range kv[0].([]Node) {
+			st, ok := m.nodeMap[nd.Name]
+			info, age := "absent", int64(0)
+			if ok {
+				info, age = vStateName(st.State), time.Since(st.StateChange).Milliseconds()
+			}
+			if kind == "GossipPick" && info == "alive" {
+				// gossip to members held alive is the common case: one line in 64 is enough
+				n.gossipSeen++
+				if n.gossipSeen%64 != 1 {
+					continue
+				}
+			}
+			l := vBlankLine(kind)
+			l.N, l.T = n.name, s.now()
+			l.Node, l.Info, l.Age = nd.Name, info, age
+			l.Cfg = n.cfg
+			s.emit(l)
+		}
 
 	case "merge.entry":
 		if ml, ok := n.mergeLine[gid]; ok {
